@@ -129,6 +129,29 @@ FIELDS = {
     "C18": {"out", "alloc", "place", "cap", "len"},
 }
 
+# which operations a property's correspondence is about (None: every operation).  The FIRST line on which
+# the two traces differ in ANY field decides: the history counts against the property only if that line
+# is an operation the property speaks about and differs in one of the property's fields; otherwise
+# the model stopped describing the implementation for a reason that is another property's business,
+# and everything later in the history is a downstream effect (DESIGN.md section 13).
+ITER_OPS = {"drain", "splice", "dfilter", "intoiter", "next", "nextb", "nth", "nthb", "count", "last", "hint",
+            "asslice", "cloneit", "dropit", "forget"}
+NOT_OWNERSHIP = {"hint", "cmp", "spare", "splitspare"}     # their results are numbers, not elements
+REL_OPS = {
+    "C10": ITER_OPS,
+    "C11": {"insert", "remove", "swaprm", "splitoff", "drain", "splice", "extwithin", "shrinkto", "index", "slice", "trunc"},
+    "C15": {"cmp"},
+}
+IRREL_OPS = {"C02": NOT_OWNERSHIP, "C04": NOT_OWNERSHIP, "C05": NOT_OWNERSHIP, "C12": NOT_OWNERSHIP, "C17": NOT_OWNERSHIP}
+
+def op_relevant(pid, op):
+    if pid in REL_OPS:
+        return op in REL_OPS[pid] or op == "end"
+    return op not in IRREL_OPS.get(pid, ())
+
+def diff_fields(mp, ip):
+    return {f for f in ALL if project("", mp, {f}) != project("", ip, {f})}
+
 def compare_one(pid, line, mlines, res):
     """-> (n lines compared, mismatch or None)"""
     fields = FIELDS.get(pid, ALL)
@@ -167,8 +190,12 @@ def compare_one(pid, line, mlines, res):
             return n, {"at": mp["k"], "model": ml, "impl": ilines[i], "why": "unparsable implementation line"}
         a, b = project(pid, mp, fields), project(pid, ip, fields)
         n += 1
-        if a != b:
-            return n, {"at": mp["k"], "model": a, "impl": b, "why": "projection %s differs" % sorted(fields)}
+        if project(pid, mp, ALL) != project(pid, ip, ALL):
+            df = diff_fields(mp, ip)
+            if a != b and op_relevant(pid, mp["op"]):
+                return n, {"at": mp["k"], "model": a, "impl": b, "why": "projection %s differs" % sorted(fields)}
+            # the traces part ways here, in fields or at an operation this property does not speak about
+            return n, {"elsewhere": True, "at": mp["k"], "op": mp["op"], "fields": sorted(df)}
     if res["fate"] != "done" and fo is None:
         return n, {"at": -1, "model": "(history completes)", "impl": "fate=%s" % res["fate"], "why": "implementation did not complete the history"}
     return n, None
